@@ -50,6 +50,28 @@ func Diff(rs ref.Store, id uuid.UUID) (map[string][2][]byte, *ref.Transaction, e
 	return result, tx, nil
 }
 
+// movedBy looks for a log entry of the branch written by the given transaction,
+// i.e. by an earlier run of Commit that was interrupted before the transaction
+// could be marked as committed.
+func movedBy(rs ref.Store, branch string, tx *ref.Transaction) (newSum []byte, ok bool) {
+	r, err := rs.LogReader(ref.HeadRef(branch))
+	if err != nil {
+		return nil, false
+	}
+	defer r.Close()
+	// stores may keep times with a precision of one second
+	begin := tx.Begin.Truncate(time.Second)
+	for {
+		rl, err := r.Read()
+		if err != nil || rl.Time.Before(begin) {
+			return nil, false
+		}
+		if rl.Txid != nil && *rl.Txid == tx.ID {
+			return rl.NewOID, true
+		}
+	}
+}
+
 func Commit(db objects.Store, rs ref.Store, id uuid.UUID) (commits map[string]*objects.Commit, err error) {
 	tx, err := rs.GetTransaction(id)
 	if err != nil {
@@ -65,6 +87,15 @@ func Commit(db objects.Store, rs ref.Store, id uuid.UUID) (commits map[string]*o
 	commits = map[string]*objects.Commit{}
 	buf := bytes.NewBuffer(nil)
 	for branch, sum := range m {
+		if newSum, ok := movedBy(rs, branch, tx); ok {
+			// an interrupted run of this commit has moved the branch already
+			com, err := objects.GetCommit(db, newSum)
+			if err != nil {
+				return nil, err
+			}
+			commits[ref.HeadRef(branch)] = com
+			continue
+		}
 		com, err := objects.GetCommit(db, sum)
 		if err != nil {
 			return nil, err
